@@ -89,7 +89,17 @@ static std::string reason_code(const std::string& m) {
   return "other";
 }
 
-void vh_run(const vh::Case& c, vh::Ctx& ctx) {
+static bool is_u32_abs(const xi::Opnd& o, int mode) {
+  return o.kind == xi::Opnd::kMem && mode == 64 && o.mem.abs && !o.mem.moff && o.mem.base.rc == xi::RC::None && o.mem.index.rc == xi::RC::None &&
+         o.mem.disp > 0x7fffffffLL && o.mem.disp <= 0xffffffffLL;
+}
+
+// `twin`: judge the same instruction with every absolute address of [2^31, 2^32) moved below 2^31 (bit 31 cleared) - the form LLVM can
+// assemble - and only report whether the DB row is outvoted there (no failures, no counters).
+static void run_case(const vh::Case& c, vh::Ctx& ctx, bool twin, bool* twin_outlier, std::vector<uint8_t>* twin_bytes);
+void vh_run(const vh::Case& c, vh::Ctx& ctx) { run_case(c, ctx, false, nullptr, nullptr); }
+
+static void run_case(const vh::Case& c, vh::Ctx& ctx, bool twin, bool* twin_outlier, std::vector<uint8_t>* twin_bytes) {
   int mode = (c.cfg.size() > 0 && c.cfg[0] == 32) ? 32 : 64;
   size_t fi = c.cfg.size() > 1 ? size_t(uint64_t(c.cfg[1]) % g_db.forms.size()) : 0;
   const xdb::Form& f = g_db.forms[fi];
@@ -109,6 +119,10 @@ void vh_run(const vh::Case& c, vh::Ctx& ctx) {
     for (xi::Opnd& o : x.ops) if (o.kind == xi::Opnd::kMem && o.mem.size_bits != 0) { o.mem.size_bits = 0; any = true; }
     if (any) { ctx.cls("unsized_memory_operand"); unsized = true; }
   }
+
+  bool has_u32_abs = false; int64_t u32_disp = 0;
+  for (xi::Opnd& o : x.ops) if (is_u32_abs(o, mode)) { has_u32_abs = true; u32_disp = o.mem.disp; if (twin) o.mem.disp &= 0x7fffffffLL; }
+  if (has_u32_abs && !twin) ctx.cls("mem_abs_u32_zero_extended");
 
   InstId id = InstAPI::string_to_inst_id(mode == 64 ? Arch::kX64 : Arch::kX86, f.name.c_str(), f.name.size());
   if (id == 0) { ctx.cls("skip_unknown_mnemonic"); return; }
@@ -144,6 +158,13 @@ void vh_run(const vh::Case& c, vh::Ctx& ctx) {
                     x.ops[0].reg.rc == x.ops[1].reg.rc;
     if (f.name == "xchg" && same_acc && An == 1 && A[0] == 0x90 && (x.ops[0].reg.rc == xi::RC::Gp64 || (x.ops[0].reg.rc == xi::RC::Gp32 && mode == 32))) { tv.status = xt::kMatch; equiv = true; ctx.cls("equiv_xchg_acc_acc_is_nop"); }
     if ((f.name == "ret" || f.name == "retf") && x.ops.size() == 1 && x.ops[0].kind == xi::Opnd::kImm && x.ops[0].imm == 0 && An == 1 && A[0] == (f.name == "ret" ? 0xC3 : 0xCB)) { tv.status = xt::kMatch; equiv = true; ctx.cls("equiv_ret_0_is_ret"); }
+  }
+  if (tv.status == xt::kMismatch && f.name == "lea" && has_u32_abs && !twin && x.ops.size() == 2 && x.ops[0].kind == xi::Opnd::kReg && x.ops[0].reg.rc == xi::RC::Gp64) {
+    // lea r64, [abs in 2^31..2^32): AsmJit emits lea r32, [disp32] (no REX.W, no 67h): the sign-extended address truncated to 32 bits and
+    // zero-extended into the 64-bit register is the same value
+    xi::XInst y = x; y.ops[0].reg.rc = xi::RC::Gp32; y.ops[1].mem.disp = int64_t(int32_t(uint32_t(x.ops[1].mem.disp)));
+    xt::Verdict t2 = xt::judge(g_db, y, A, An);
+    if (t2.status == xt::kMatch) { tv.status = xt::kMatch; equiv = true; ctx.cls("equiv_lea_r64_abs_u32_is_lea_r32"); }
   }
   if (tv.status == xt::kMatch) { judged = true; ctx.cls("j3_match"); }
   else if (tv.status == xt::kUndecided) ctx.cls("j3_undecided");
@@ -188,6 +209,27 @@ void vh_run(const vh::Case& c, vh::Ctx& ctx) {
 
   // The independent assembler and both decoders side with AsmJit against the DB row: the row is the outlier.
   bool db_outlier = tv.status == xt::kMismatch && asm_ok && j1_agree && (j2_agree || !oA.count);
+  if (twin) { if (twin_outlier) *twin_outlier = db_outlier; if (twin_bytes) twin_bytes->assign(A, A + An); return; }
+  if (tv.status == xt::kMismatch && !db_outlier && has_u32_abs) {
+    // LLVM cannot assemble an absolute address of [2^31, 2^32) in 64-bit mode, so it cannot outvote a DB row for it. Ask about the twin
+    // below 2^31 and require that AsmJit's two encodings differ by exactly the 67h prefix and the address bytes.
+    vh::Ctx tmp; tmp.opts = ctx.opts; bool out = false; std::vector<uint8_t> tb;
+    try { run_case(c, tmp, true, &out, &tb); } catch (const vh::Failure&) { out = false; }
+    std::vector<uint8_t> a2; bool dropped = false;
+    for (size_t i = 0; i < An; i++) { if (!dropped && A[i] == 0x67) { dropped = true; continue; } a2.push_back(A[i]); }
+    bool related = dropped && a2.size() == tb.size();
+    if (related) {
+      size_t ndiff = 0, first = a2.size(), last = 0;
+      for (size_t i = 0; i < a2.size(); i++) if (a2[i] != tb[i]) { ndiff++; first = std::min(first, i); last = i; }
+      related = ndiff >= 1 && last - first < 4;
+      if (related) {
+        size_t pos = last >= 3 ? last - 3 : 0;      // bit 31 is in the most significant address byte
+        uint32_t va = 0, vt = 0; for (int k = 0; k < 4 && pos + size_t(k) < a2.size(); k++) { va |= uint32_t(a2[pos + size_t(k)]) << (8 * k); vt |= uint32_t(tb[pos + size_t(k)]) << (8 * k); }
+        related = va == uint32_t(u32_disp) && vt == (uint32_t(u32_disp) & 0x7fffffffu);
+      }
+    }
+    if (out && related) { db_outlier = true; ctx.cls("db_row_outvoted_via_low_address_twin"); }
+  }
   if (db_outlier) ctx.cls("db_row_outvoted_by_llvm_and_opcodes");
 
   if (g_survey) {
